@@ -141,6 +141,8 @@ func C02(c *Ctx) {
 // C13 — non-generator code is behaviourally unchanged.
 func C13(c *Ctx) {
 	progs := append(cases.Opt(), cases.OptGen()...)
+	// closures and pointers created by ordinary code inside generators must keep denoting the same variables
+	progs = append(progs, cases.Scope()...)
 	nby := 150
 	if c.Thorough() {
 		nby = 2000
@@ -210,6 +212,8 @@ func C03(c *Ctx) {
 		n = 8000
 	}
 	progs = append(progs, genr.Scope(n, c.Seed)...)
+	// the variables of consumer loops over iterators are scoped like range variables
+	progs = append(progs, cases.Consumer()...)
 	// iteration variables of range loops: one variable per iteration, updates by the body do not leak into the iteration
 	progs = append(progs, cases.Range()...)
 	rg, _ := genr.Range(c.Seed+13, 0, c.Rep.QuarantinedFeatures())
